@@ -2,17 +2,17 @@
 # usage: confirm_mutant.sh <mutant dir with patch.diff + demo.rs> <seed id>
 # Confirms, in the scratch worktree /tmp/wt_confirm: (1) the patch applies and the workspace test suite still
 # passes with it, (2) the demo fails with it, (3) the demo passes without it. Writes <dir>/confirm.json.
-D="$1"; ID="$2"
+D="$1"; ID="$2"; PKG="${3:-biscuit-auth}"
 WT=/tmp/wt_confirm
 export CARGO_NET_OFFLINE=true CARGO_TARGET_DIR=$WT/target
 if [ ! -d $WT ]; then git -C /repo worktree add -q --detach $WT HEAD || exit 2; fi
-cd $WT && git checkout -q --detach $(git -C /repo rev-parse HEAD) && git checkout -- . && rm -f biscuit-auth/tests/verif_demo_*.rs
-cp "$D/demo.rs" biscuit-auth/tests/verif_demo_x.rs
+cd $WT && git checkout -q --detach $(git -C /repo rev-parse HEAD) && git checkout -- . && rm -f biscuit-auth/tests/verif_demo_*.rs biscuit-capi/tests/verif_demo_*.rs
+mkdir -p $PKG/tests; cp "$D/demo.rs" $PKG/tests/verif_demo_x.rs
 # demo without the change
-cargo test --offline -p biscuit-auth --test verif_demo_x > $D/confirm_demo_without.log 2>&1; DW=$?
+cargo test --offline -p $PKG --test verif_demo_x > $D/confirm_demo_without.log 2>&1; DW=$?
 git apply "$D/patch.diff" || { echo '{"applies": false}' > $D/confirm.json; exit 1; }
-cargo test --offline -p biscuit-auth --test verif_demo_x > $D/confirm_demo_with.log 2>&1; DC=$?
-rm -f biscuit-auth/tests/verif_demo_x.rs
+cargo test --offline -p $PKG --test verif_demo_x > $D/confirm_demo_with.log 2>&1; DC=$?
+rm -f $PKG/tests/verif_demo_x.rs
 cargo test --workspace --no-fail-fast --offline > $D/confirm_suite_with.log 2>&1; ST=$?
 if [ $ST -ne 0 ]; then   # tests with 1 ms time limits fail spuriously under load: retry once
   cargo test --workspace --no-fail-fast --offline > $D/confirm_suite_with.log 2>&1; ST=$?
